@@ -133,6 +133,14 @@ def run_one(scenario, schedule, tear):
 
 
 def main():
+    # each simulated process has its own pid (the store derives the names of its temporaries from os.getpid(), and code
+    # may treat "other pids" specially)
+    real_getpid = os.getpid
+
+    def fake_getpid():
+        who = getattr(fsgate._tls, "who", None)
+        return real_getpid() if who is None else 700000 + who
+    os.getpid = fake_getpid
     payload = json.load(sys.stdin)
     from dds.codec import codec_registry
     codec_registry()
